@@ -390,6 +390,21 @@ func genVal(t *rapid.T, td *TD, malP int, quirk string) Val {
 		if v.T == time.Date(1, 1, 1, 0, 0, 0, 0, time.UTC).Unix() {
 			v.T++
 		}
+		if pct(t, 20, "tz") {
+			// numeric zone offsets, -1459..+1459 minutes, with explicit classes for the sub-hour ones
+			switch rapid.IntRange(0, 5).Draw(t, "tzclass") {
+			case 0:
+				v.TZ = -rapid.IntRange(1, 59).Draw(t, "tzm")
+			case 1:
+				v.TZ = rapid.IntRange(1, 59).Draw(t, "tzm")
+			case 2:
+				v.TZ = 60 * rapid.IntRange(-24, 24).Draw(t, "tzh")
+			case 3:
+				v.TZ = rapid.SampledFrom([]int{-1459, 1459, -1440, 1440, -60, 60, -61, 61, -59, 59, -1, 1, -210, 345}).Draw(t, "tze")
+			default:
+				v.TZ = rapid.IntRange(-1459, 1459).Draw(t, "tzr")
+			}
+		}
 	case KRaw:
 		if pct(t, 70, "rawuniv") {
 			v.RC = 0
